@@ -261,6 +261,12 @@ def battery(seed, n):
                 f[0] = min(f[0], 0xFEF)       # a particle's first byte is never 0xFF
                 s.append(enc_fields(f))
         streams.append(s)
+    # records whose bytes are all 0x00 (a legitimate particle: every field 0) or all equal, single-bit records, next to headers
+    for cpd in (4, 5, 1701):
+        h = header(cpd, 2500, [1, cpd - 1, cpd // 2])
+        z = [0] * 9
+        streams.append([h, z, enc_fields([1, 2, 3, 4, 5, 6]), z, z, h, z])
+        streams.append([h] + [[0] * k + [1 << b] + [0] * (8 - k) for k in range(9) for b in (0, 7)] + [[0x7F] * 9, [0xFE] * 9])
     return streams
 
 
